@@ -83,31 +83,70 @@ pub fn run(ctx: &mut Ctx) {
     case(ctx, n, kind);
   }
 
-  // ---- setup-level wrapper
-  let ns = if ctx.thorough { 24 } else { 6 };
+  // ---- setup-level wrapper: square ranges, rectangular ranges with a square number of points
+  // (4×9, 2×8, 3×12, 1×4, 9×4 …) and with a non-square number of points (6×11, 2×3 … ⇒ Err)
+  let ns = if ctx.thorough { 40 } else { 12 };
   let sides: &[usize] = if ctx.thorough { &[1, 2, 3, 5, 8, 16, 24] } else { &[1, 2, 4, 6, 8] };
-  for _ in 0..ns {
+  let rect: &[(usize, usize)] = &[(4, 9), (9, 4), (2, 8), (8, 2), (3, 12), (1, 4), (4, 1), (1, 9), (2, 18), (4, 16), (5, 20)];
+  let bad: &[(usize, usize)] = &[(6, 11), (2, 3), (3, 2), (1, 2), (5, 7), (4, 8), (7, 6), (1, 3)];
+  for c in 0..ns {
     let st = gen_setup(&mut ctx.rng, None);
-    let n = *ctx.rng.pick(sides);
+    let (nx, ny, shape) = match c % 3 {
+      0 => {
+        let n = *ctx.rng.pick(sides);
+        (n, n, "square")
+      }
+      1 => {
+        let (a, b) = *ctx.rng.pick(rect);
+        (a, b, "rect-square-length")
+      }
+      _ => {
+        let (a, b) = *ctx.rng.pick(bad);
+        (a, b, "rect-nonsquare-length")
+      }
+    };
     let integ = Integrator::default();
     let sp = st.spdc.joint_spectrum(integ);
-    let range = st.spdc.optimum_range(n);
+    let o = st.spdc.optimum_range(nx.max(2));
+    let os = o.steps();
+    let range = spdcalc::jsa::FrequencySpace::new((os.0 .0, os.0 .1, nx), (os.1 .0, os.1 .1, ny));
     let amps = sp.jsa_range(range);
     let r = guard(|| sp.schmidt_number(range));
+    // K: the wrapper against the model fed with the implementation's own samples
     ctx.k("schmidt", &cxs(&amps), &out(&r));
     let direct = call(&amps);
-    let ok = match (val(&r), val(&direct)) {
-      (Some(a), Some(b)) => relclose(a, b) || (a.is_nan() && b.is_nan()),
+    let ok = match (&r, &direct) {
+      (Some(Ok(a)), Some(Ok(b))) => relclose(*a, *b) || (a.is_nan() && b.is_nan()),
+      (Some(Err(_)), Some(Err(_))) => true,
       _ => false,
     };
-    ctx.count("setup/wrapper");
-    ctx.s("C11.wrapper", ok, "schmidt/setup-eq-array", &format!("setup={} n={} K={:?}", st.name, n, val(&r)));
-    if let Some(k) = val(&r) {
-      if amps.iter().any(|z| z.norm() > 0.0) {
-        let okb = k >= 1.0 - TOL && k <= n as f64 * (1.0 + TOL);
-        ctx.s("C11.bounds", okb, "schmidt/setup-bounds", &format!("setup={} n={} K={:e}", st.name, n, k));
+    ctx.count(&format!("setup/wrapper/{}", shape));
+    ctx.s(
+      "C11.wrapper",
+      ok,
+      &format!("schmidt/setup-eq-array/{}", shape),
+      &format!("setup={} nx={} ny={} samples={} wrapper={} on_samples={}", st.name, nx, ny, amps.len(), out_txt(&r), out_txt(&direct)),
+    );
+    let d = ((nx * ny) as f64).sqrt().round() as usize;
+    if d * d != nx * ny {
+      ctx.s("C11.nonsquare", matches!(&r, Some(Err(_))), "schmidt/setup-nonsquare-rejected", &format!("setup={} nx={} ny={} wrapper={}", st.name, nx, ny, out_txt(&r)));
+    }
+    if nx == ny {
+      if let Some(k) = val(&r) {
+        if amps.iter().any(|z| z.norm() > 0.0) {
+          let okb = k >= 1.0 - TOL && k <= nx as f64 * (1.0 + TOL);
+          ctx.s("C11.bounds", okb, "schmidt/setup-bounds", &format!("setup={} n={} K={:e}", st.name, nx, k));
+        }
       }
     }
+  }
+}
+
+fn out_txt(r: &Option<Result<f64, spdcalc::SPDCError>>) -> String {
+  match r {
+    Some(Ok(x)) => format!("{:e}", x),
+    Some(Err(_)) => "Err".into(),
+    None => "PANIC".into(),
   }
 }
 
@@ -154,12 +193,23 @@ fn case(ctx: &mut Ctx, n: usize, kind: usize) {
       }).collect())
     }
   };
+  // absolute amplitude scale: the statement quantifies over every non-zero array and claims invariance
+  // under any global complex factor, so two cases in three carry a factor log-uniform in 1e-30 … 1e+30
+  // (σ⁴ and (Σσ²)² stay far inside the f64 range: ≤ 1e140)
+  let base = v;
+  let c0 = match ctx.rng.below(3) {
+    0 => C::new(1.0, 0.0),
+    _ => C::from_polar(ctx.rng.log_range(1e-30, 1e30), ctx.rng.range(-3.2, 3.2)),
+  };
+  let v: Vec<C> = base.iter().map(|z| z * c0).collect();
+  let decade = c0.norm().log10().floor() as i64;
+  ctx.count(&format!("array/scale=1e{}", if c0.norm() == 1.0 { "0/unit".to_string() } else { format!("{:+}", (decade.div_euclid(10)) * 10) }));
   ctx.count(&format!("array/{}", name));
   ctx.count(&format!("array/side={}", if n <= 2 { n.to_string() } else if n <= 12 { "3-12".into() } else { "13+".into() }));
   let res = call(&v);
   ctx.k("schmidt", &cxs(&v), &out(&res));
   let k0 = val(&res);
-  let det = format!("kind={} n={} K={:?} seedcase={}", name, n, k0, ctx.seed);
+  let det = format!("kind={} n={} scale={:e} K={:?} seedcase={}", name, n, c0.norm(), k0, ctx.seed);
   let nonzero = v.iter().any(|z| z.norm() > 0.0);
   if !nonzero {
     return;
@@ -175,8 +225,9 @@ fn case(ctx: &mut Ctx, n: usize, kind: usize) {
   }
   // invariances
   let r = &mut ctx.rng;
-  let c = C::from_polar(r.log_range(1e-3, 1e3), r.range(-3.2, 3.2));
-  let scaled: Vec<C> = v.iter().map(|z| z * c).collect();
+  // another global factor over the same sixty decades, applied to the unscaled array
+  let c = C::from_polar(r.log_range(1e-30, 1e30), r.range(-3.2, 3.2));
+  let scaled: Vec<C> = base.iter().map(|z| z * c).collect();
   let phased: Vec<C> = v.iter().map(|z| z * C::from_polar(1.0, r.range(-3.2, 3.2))).collect();
   let transposed: Vec<C> = (0..n * n).map(|k| v[(k % n) * n + k / n]).collect();
   for (what, w) in [("scale", &scaled), ("phase", &phased), ("transpose", &transposed)] {
@@ -186,6 +237,6 @@ fn case(ctx: &mut Ctx, n: usize, kind: usize) {
       (Some(a), Some(b)) => relclose(a, b),
       _ => false,
     };
-    ctx.s("C11.invariance", ok, &format!("schmidt/invariant-{}", what), &format!("{} after={:?}", det, val(&rr)));
+    ctx.s("C11.invariance", ok, &format!("schmidt/invariant-{}", what), &format!("{} factor={:e} after={:?}", det, if what == "scale" { c.norm() } else { 1.0 }, val(&rr)));
   }
 }
